@@ -276,6 +276,15 @@ func (c *symCtx) evalPure(fn *ssa.Function, args []sv, free []sv, depth int) ([]
 				pt := x.Type().Underlying().(*types.Pointer)
 				if x.Heap {
 					path = c.fresh("H:" + x.Name())
+				} else {
+					// aggregates are held by reference: a composite literal built in a loop body must be a new
+					// object on every execution, or the elements appended in earlier iterations all become the last one
+					switch pt.Elem().Underlying().(type) {
+					case *types.Struct, *types.Array:
+						if loopContaining(fn, x.Block()) != nil {
+							path = c.fresh(path)
+						}
+					}
 				}
 				c.mem[path] = zeroOf(pt.Elem(), path)
 				regs[x] = sv{k: 'p', addr: path}
@@ -777,6 +786,25 @@ func (c *symCtx) callFn(callee *ssa.Function, args, free []sv, depth int) (sv, b
 			return sv{k: 'I', tup: []sv{{k: 'p', addr: "R:error"}}}, true
 		case "(time.Duration).String", "strconv.FormatInt", "strconv.Itoa":
 			return sv{k: 's', i: 1, addr: c.fresh("fmt")}, true
+		case "(encoding/binary.bigEndian).Uint16", "(encoding/binary.bigEndian).Uint32", "(encoding/binary.bigEndian).Uint64":
+			// big-endian composition of concrete bytes (used when a wire decoder is evaluated on concrete input)
+			w := map[string]int64{"(encoding/binary.bigEndian).Uint16": 2, "(encoding/binary.bigEndian).Uint32": 4, "(encoding/binary.bigEndian).Uint64": 8}[fullName(callee)]
+			b := args[len(args)-1]
+			if b.k != 's' || b.addr == "" {
+				return sv{}, c.fail("%s on an abstract slice", fullName(callee))
+			}
+			if b.i < w {
+				return sv{}, c.fail("%s on %d byte(s): index out of range", fullName(callee), b.i)
+			}
+			var v uint64
+			for k := int64(0); k < w; k++ {
+				cell, ok := c.mem[fmt.Sprintf("%s[%d]", b.addr, b.off+k)]
+				if !ok || cell.k != 'i' {
+					return sv{k: 'u'}, true
+				}
+				v = v<<8 | uint64(cell.i&0xff)
+			}
+			return sv{k: 'i', i: int64(v)}, true
 		}
 		return sv{}, c.fail("external call %s", fullName(callee))
 	}
